@@ -34,6 +34,9 @@ CHECKS = {
  'C39': dict(cat='proof', tech='deductive: postconditions on the real BoundStatement.bind (encryption branch) and ResultMessage.recv_results_rows (decode_val/decode_row) with the encryption policy as an abstract inverse pair whose operations require bytes; bounded probe and end-to-end round trip with the real AES256ColumnEncryptionPolicy',
              text='For every integer value and for null, for an encrypted and a plain column: bind sends encrypt(serialize(v)) (never the plaintext, null stays null, the policy is only asked for non-null values) and a ROWS body containing that ciphertext or a null cell decodes to the original value / None with decrypt only ever handed bytes. The AES policy itself is an assumed contract (E-AES) probed on the real class (bounded); the compiled decoder is outside this family.',
              ref='DESIGN.md §4 C39'),
+ 'C37': dict(cat='other', tech='contract postconditions (size == bound keys == rendered placeholders, consecutive ids, operand-role binding, per-clause ownership, disjoint ranges in batches) on the real cqlengine clause / statement classes and BatchQuery.execute, executed by the AST interpreter on opaque value tokens for every enumerated shape',
+             text='Bounded in shape, parametric in the bound values: every clause class in every operation/previous-value shape with collections of 0..3 opaque elements, statements built from up to 2 where / 3 assignment / 1 conditional / 2 delete clauses, batches of up to 3 statements, starting ids 0 and 7. The obligations are evaluated on concrete runs of the real methods (no solver reasoning is needed: strings and counters are concrete), so this is exhaustive exploration of the listed shapes, not a proof over all shapes.',
+             ref='DESIGN.md §4 C37', note='Trusted base: the pyvc AST interpreter executing the real methods; parametricity in the bound values (tokens are only stored, compared and measured); shapes are enumerated.'),
  'C31': dict(cat='proof', tech='deductive: lock-invariant proof of MonotonicTimestampGenerator.__call__ for arbitrary clock and history + frame scan',
              text='Lock invariant (all returned timestamps <= last) proved preserved by __call__ for an arbitrary prior state and clock reading; '
                   'strict monotonicity across threads follows for lock-respecting schedules; unprotected reads/writes of `last` fail an obligation.',
